@@ -363,7 +363,8 @@ theorem compile_noCb (t : Nat) (k : Key) (sp : List SOp)
 receives mixed, broadcast sends and polls included), any number of them, every interleaving.  For a key `k`
 that is never opened with callbacks: the values returned so far by the receiving endpoint's receive calls on `k`
 (in program order, each standing for its wire: `structured_roundtrip`), followed by what is still queued, are
-exactly the wires of the peer's completed socket-level sends on that socket, in sending order. -/
+exactly the wires of the peer's completed socket-level sends on that socket, in sending order.  The receive vocabulary is everything that ends in `_SocketHub.recv`: `recv`, `recv_silent`,
+`recv_structured`, the blocking broadcast receive (poll) and the non-blocking one (one round). -/
 theorem socket_exactly_once_fifo (sprogs : List (List SOp)) (s : State) (k : Key)
     (h : Reachable (sprogs.map compileProg) s)
     (hk : ∀ t rn id, SOp.connect rn id true ∈ sprogs.getD t [] → (t, rn, id) ≠ k) :
@@ -451,11 +452,36 @@ theorem broadcast_delivers_each_once :
     recvWires (1, 0, 0) (s.threads 1).res = [10, 11] ∧ recvWires (2, 0, 0) (s.threads 2).res = [10, 11] := by
   decide
 
-/-- F29 (open finding, the code as it is): the non-blocking broadcast receive performs NO hub operation —
-`while block:` is skipped and RuntimeError("No message broadcasted") is raised whatever is queued.  Full
-statement that fails: "a non-blocking broadcast receive returns a queued message". -/
-theorem broadcast_recv_nonblocking_is_noop (r : Nat) (rs : List Nat) (id : Nat) :
-    compile (.brecv r rs id false) = [] := rfl
+/-- `broadcast_recv_nonblocking_one_round` (the code after the fix of F48): a non-blocking broadcast receive is
+ONE round of non-blocking receives over the remotes in list order.  On an empty socket it goes on with the next
+remote of the list and, after the last one, reports emptiness without changing the shared state; on a socket
+with a message it pops that message (`recv_nonblock_nonempty`, `recv_returns_head`: the head, exactly once). -/
+theorem broadcast_recv_nonblocking_one_round (r : Nat) (rs : List Nat) (id : Nat) :
+    compile (.brecv r rs id false) = [.recv r id (.pollOnce rs) 0] ∧
+    (∀ (s : State) (tid : Nat) (k : Key) (tag r' : Nat) (rs' : List Nat),
+      (s.threads tid).pc = .rLen k (.pollOnce (r' :: rs')) tag → s.msgs k = [] →
+      step s tid = some (setThread s tid (goto (s.threads tid) (.rLock (k.1, r', k.2.2) (.pollOnce rs') tag)))) ∧
+    (∀ (s : State) (tid : Nat) (k : Key) (tag : Nat),
+      (s.threads tid).pc = .rLen k (.pollOnce []) tag → s.msgs k = [] →
+      step s tid = some (setThread s tid (advance tid (s.threads tid) (.empty k)))) := by
+  refine ⟨rfl, ?_, ?_⟩
+  · intro s tid k tag r' rs' hpc hq
+    unfold step; simp only [hpc, hq]
+  · intro s tid k tag hpc hq
+    unfold step; simp only [hpc, hq]
+
+/-- a non-blocking broadcast receive finds the message of the SECOND remote although the first has none
+(kernel-decided run; before the fix of F48 the call raised without looking at any socket) -/
+example :
+    let sprogs : List (List SOp) :=
+      [[.connect 1 0 false, .connect 2 0 false, .brecv 1 [2] 0 false, .brecv 1 [2] 0 false],
+       [.connect 0 0 false],
+       [.connect 0 0 false, .send 0 0 9]]
+    let progs := sprogs.map compileProg
+    let run := runSched (init progs) ([2, 1, 0, 2, 1, 0, 2, 1, 0, 2, 1, 0, 2, 2, 2, 2, 2, 2] ++ List.replicate 30 0)
+    let s := lastState (init progs) run
+    ((s.threads 0).res.map view).filter (fun r => r ≠ .connected (0, 1, 0) ∧ r ≠ .connected (0, 2, 0)) =
+      [.gotStr (0, 2, 0) 9, .empty (0, 2, 0)] := by decide
 
 /-- mixed plain / structured traffic through the socket layer (kernel-decided run): the structured message comes
 back as (header, payload), the string as a string, in sending order -/
